@@ -240,8 +240,11 @@ func (snm *shardNotificationsManager) getNotifications() error {
 		return err
 	}
 
+	// Once the cursor has been positioned, always resume from the last offset we have seen. That offset is
+	// -1 when we subscribed on a shard that was still empty: it must be sent as well, otherwise the server
+	// would position us again on its current commit offset and everything written in between would be lost
 	var startOffsetExclusive *int64
-	if snm.lastOffsetReceived >= 0 {
+	if snm.initialized {
 		startOffsetExclusive = &snm.lastOffsetReceived
 	}
 
